@@ -215,7 +215,7 @@ def filters(ctx, g):
             continue
         pvs, pcurv, pnext = v[2]
         fa = [atom_norm(a, g) for a in ch.facts_at(bi, deep=True)]
-        neg = ("rel", "Lt", pcurv, ("int", 0)) in fa
+        neg = any(implies(h, ("rel", "Lt", pcurv, ("int", 0))) for h in fa)
         if neg:
             nh += 1
             okm = ("bool", ("call", M + "DSymBackTracking::is_minimally_hyperbolic", (mec, pvs, pcurv)), True) in fa
